@@ -1036,4 +1036,49 @@ theorem reach_lic {s0 : State} (h0 : Inv s0) (hf0 : s0.frames = []) (n : Bytes) 
     · exact .inl h'
 
 
+/-! ## what an immediate `.du32` reads -/
+
+theorem addTask_log {s s' : State} {t : Task} {r : Realm} (h : addTask s t r = .ok s') : s'.log = s.log := by
+  unfold addTask at h
+  cases r with
+  | global => cases h; rfl
+  | loc => simp only at h; split at h <;> cases h; rfl
+
+/-- `.du32 n` inside a file: the only value it can write at once is the current file's entry for `n` -/
+theorem use_resolves {s s' : State} {l : Table} {n : Bytes} {tag : Nat} {r : Option Level}
+    (hd : s.depth ≠ 0) (hl : s.locals = some l) (h : stmt s (.use n tag) = .ok (s', r)) :
+    s'.log = s.log ∨ (∃ k, s'.log = .diag tag k :: s.log) ∨
+      (∃ v, l.find n = some (some v) ∧ s'.log = .value tag v 0 :: s.log) := by
+  simp only [stmt] at h
+  unfold doUse at h
+  have key : ∀ {s1 : State} {res : Except Level DataOp} {c : Option Int},
+      applyUse s n none tag 0 true = .ok (s1, res, c) →
+      s1.log = s.log ∨ (∃ k, s1.log = .diag tag k :: s.log) ∨
+      (∃ v, l.find n = some (some v) ∧ s1.log = .value tag v 0 :: s.log) := by
+    intro s1 res c ha
+    unfold applyUse at ha
+    simp only [State.hasCurrFile, hd, getConstant, hl, ne_eq, not_false_eq_true, decide_true, if_true] at ha
+    split at ha
+    · cases ha; exact .inr (.inl ⟨_, rfl⟩)
+    · split at ha
+      · cases ha
+      · cases ha; exact .inl rfl
+      · cases ha; exact .inl rfl
+      · rename_i v hg
+        have hf : l.find n = some (some v) := get_found (Except.ok.inj hg)
+        unfold writeVal at ha
+        split at ha <;> rename_i heq <;> cases ha <;> (split at heq <;> cases heq)
+        all_goals first
+          | exact .inr (.inr ⟨v, hf, rfl⟩)
+          | exact .inr (.inl ⟨_, rfl⟩)
+  split at h
+  · cases h
+  · rename_i ha; cases h; exact key ha
+  · rename_i ha
+    split at h
+    · cases h
+    · rename_i hadd; cases h
+      rw [addTask_log hadd]; exact key ha
+
+
 end Trion.Scope
